@@ -36,6 +36,11 @@ EXES = {
     "raise": "raise my_err;",
     "handled": "begin raise e1; exception when e1 then a = a + 10; end;",
     "tab": "t = tab(2, a); r = tup(a, b);",
+    "rehandle": "begin raise e1; exception when e1 then raise e2; end;",
+    "falldiv": "t = tab(2, a); forall e in t loop x = 1 / (a - a); end loop;",
+    "useb": "b2 = b; b3 = b; print b b2 b3;",
+    "usey": "y2 = y; y3 = y; print y.count() y2.count() y3.count();",
+    "usea": "a2 = a + 1; a3 = a + 1; print a a2 a3;",
 }
 BAD = {"syn": "a = ;", "eof": "a = (1 +", "undef": "zz9 = nosuch + 1;", "str": 'a = "unterminated;', "deep": "for i in 1 to 2 loop a = ; end loop;"}
 EXPRS = {"add": "a + 1", "str": 'b + "?"', "div": "1 / (a - a)", "tab": "tab(2, a)", "tup": "tup(a, b)", "const": "40 + 2"}
@@ -175,7 +180,7 @@ def mk_load(c, name, l):
         cx = m.ctx[c]
         if cx is None or name not in cx.vars:
             return None
-        sl = {"A": 0, "B": 1, "T": 2, "R": 3}[name]
+        sl = {"A": 0, "B": 1, "T": 2, "R": 3, "Y": 2}[name]
         ops = []
         if cx.syms.get(sl) != name:
             ops.append("k.find %d %d %s" % (c, sl, name))
@@ -191,6 +196,7 @@ OPS.append(("load-B-c0", mk_load(0, "B", 1), True))
 OPS.append(("load-A-c1", mk_load(1, "A", 0), False))
 OPS.append(("load-T-c0", mk_load(0, "T", 1), False))
 OPS.append(("load-R-c0", mk_load(0, "R", 1), False))
+OPS.append(("load-Y-c0", mk_load(0, "Y", 1), False))
 
 
 def op_inspect_v(slot):
@@ -243,6 +249,32 @@ OPS.append(("assign-null-v0", mk_assign(0, "null", lambda v: (True, ("N", _tk(v)
 OPS.append(("assign-null-v1", mk_assign(1, "null", lambda v: (True, ("N", _tk(v)))), False))
 
 
+def mk_assign_var(c, name, spec, fnval):
+    """the host updates a variable of the context in place: load its value pointer, assign through it, read it back"""
+    def fn(m):
+        cx = m.ctx[c]
+        if cx is None or name not in cx.vars:
+            return None
+        v = cx.vars[name]
+        if v[0] in ("T", "R"):
+            return None
+        load = mk_load(c, name, 1)(m)
+        ok, nv = fnval(v)
+        if ok:
+            cx.vars[name] = nv
+        return load[0] + ["k.assign l1 %s" % spec], load[1] + [("assign", ok, cx.vars[name])]
+    return fn
+
+
+OPS.append(("assignvar-lit-B", mk_assign_var(0, "B", "lit:" + b"new".hex(), lambda v: (_tk(v) in ("s", "u"), ("s", b"new"))), True))
+OPS.append(("assignvar-tab-Y", mk_assign_var(0, "Y", "tab:" + b"zzz".hex(), lambda v: (_tk(v) in ("x", "u"), ("x", b"zzz"))), True))
+OPS.append(("assignvar-tab-B", mk_assign_var(0, "B", "tab:" + b"zzz".hex(), lambda v: (_tk(v) in ("x", "u"), ("x", b"zzz"))), False))
+OPS.append(("assignvar-litnull-B", mk_assign_var(0, "B", "litnull", lambda v: (_tk(v) in ("s", "u"), ("N", "s"))), False))
+OPS.append(("assignvar-tabnull-Y", mk_assign_var(0, "Y", "tabnull", lambda v: (_tk(v) in ("x", "u"), ("N", "x"))), False))
+OPS.append(("assignvar-null-A", mk_assign_var(0, "A", "null", lambda v: (True, ("N", _tk(v)))), False))
+OPS.append(("assignvar-null-Y", mk_assign_var(0, "Y", "null", lambda v: (True, ("N", _tk(v)))), False))
+
+
 def run_exe(m, c, name):
     """model of running executable `name` in context c -> (ok, errno, text-fragment, output)"""
     cx = m.ctx[c]
@@ -284,6 +316,26 @@ def run_exe(m, c, name):
     elif name == "tab":
         cx.vars["T"] = ("T", [a, a])
         cx.vars["R"] = ("R", [a, b])
+    elif name == "rehandle":
+        return (False, 1, "E2", "")
+    elif name == "useb":
+        cx.vars["B2"] = b
+        cx.vars["B3"] = b
+        out = b[1].decode() * 3 + "\n"
+    elif name == "usey":
+        y = cx.vars["Y"]
+        cx.vars["Y2"] = y
+        cx.vars["Y3"] = y
+        out = ("%d" % len(y[1])) * 3 + "\n"
+    elif name == "usea":
+        cx.vars["A2"] = add1(a)
+        cx.vars["A3"] = add1(a)
+        out = ("%d%d%d" % (a[1], a[1] + 1, a[1] + 1) if a[0] == "i" else "nullnullnull") + "\n"
+    elif name == "falldiv":
+        cx.vars["T"] = ("T", [a, a])
+        if a[0] == "i":
+            return (False, 23, "Divide by zero", "")
+        cx.vars["X"] = ("N", "i")
     return (True, None, None, out)
 
 
@@ -294,8 +346,10 @@ def mk_pexe(c, name, withpos):
             return None
         if name in ("call", "bind") and "f" not in cx.funcs:
             return None
-        if name in ("app", "rets", "print", "tab") and cx.vars.get("B", ("N",))[0] != "s":
+        if name in ("app", "rets", "print", "tab", "useb") and cx.vars.get("B", ("N",))[0] != "s":
             return None          # these texts need a non-null string in B
+        if name == "usey" and cx.vars.get("Y", ("N",))[0] != "x":
+            return None
         pre, pexp = reread_ops(m, c)
         ops = list(pre)
         if m.exe is not None:
@@ -311,8 +365,20 @@ def mk_pexe(c, name, withpos):
             pass
         if name == "loop":
             cx.vars.setdefault("I", ("N", "i"))
-        if name == "div":
+        if name in ("div", "falldiv"):
             cx.vars.setdefault("X", ("N", "i"))
+        if name == "useb":
+            cx.vars.setdefault("B2", ("N", "s"))
+            cx.vars.setdefault("B3", ("N", "s"))
+        if name == "usey":
+            cx.vars.setdefault("Y2", ("N", "x"))
+            cx.vars.setdefault("Y3", ("N", "x"))
+        if name == "usea":
+            cx.vars.setdefault("A2", ("N", "i"))
+            cx.vars.setdefault("A3", ("N", "i"))
+        if name == "falldiv":
+            cx.vars.setdefault("T", ("N", "t"))
+            cx.vars.setdefault("E", ("N", "i"))
         if name == "tab":
             cx.vars.setdefault("T", ("N", "t"))
             cx.vars.setdefault("R", ("N", "r"))
@@ -323,7 +389,7 @@ def mk_pexe(c, name, withpos):
 
 
 for nm in EXES:
-    OPS.append(("pexe-%s" % nm, mk_pexe(0, nm, 0), nm in ("inc", "ret", "div", "fun", "bind", "raise")))
+    OPS.append(("pexe-%s" % nm, mk_pexe(0, nm, 0), nm in ("inc", "ret", "div", "fun", "bind", "raise", "rehandle", "falldiv")))
 OPS.append(("pexe-inc-pos", mk_pexe(0, "inc", 1), False))
 
 
@@ -359,7 +425,9 @@ def mk_exec(two, c):
             return None
         if "A" not in cx.vars or (name in ("call", "bind") and "f" not in cx.funcs):
             return None
-        if name in ("app", "rets", "print", "tab") and cx.vars.get("B", ("N",))[0] != "s":
+        if name in ("app", "rets", "print", "tab", "useb") and cx.vars.get("B", ("N",))[0] != "s":
+            return None
+        if name == "usey" and cx.vars.get("Y", ("N",))[0] != "x":
             return None
         if two and (target == owner or m.clone_at < m.exe_at):
             return None      # execute2 needs a clone of the parsing context taken after the parse
@@ -374,6 +442,23 @@ def mk_exec(two, c):
 
 
 OPS.append(("exec", mk_exec(False, 0), True))
+
+
+def mk_script(name):
+    """parse and run in one step (keeps sequences that need a script after a host-side update short)"""
+    def fn(m):
+        r1 = mk_pexe(0, name, 0)(m)
+        if r1 is None:
+            return None
+        r2 = mk_exec(False, 0)(m)
+        if r2 is None:
+            return None
+        return r1[0] + r2[0], r1[1] + r2[1]
+    return fn
+
+
+for nm in ("useb", "usey", "usea"):
+    OPS.append(("script-%s" % nm, mk_script(nm), True))
 OPS.append(("exec2-c1", mk_exec(True, 1), True))
 
 
@@ -591,13 +676,13 @@ OPNAMES = [o[0] for o in OPS]
 OPFN = {o[0]: o[1] for o in OPS}
 CORE = [o[0] for o in OPS if o[2]]
 
-SETUP = ["k.create 0", "k.pexe 0 0 %s 0" % hx('a = 1; b = "x";'), "k.exec 0", "k.freeexe 0", "k.find 0 0 A", "k.find 0 1 B"]
+SETUP = ["k.create 0", "k.pexe 0 0 %s 0" % hx('a = 1; b = "x"; y = raw("yz");'), "k.exec 0", "k.freeexe 0", "k.find 0 0 A", "k.find 0 1 B"]
 
 
 def fresh_model():
     m = Model()
     c = Ctx()
-    c.vars = {"A": ("i", 1), "B": ("s", b"x")}
+    c.vars = {"A": ("i", 1), "B": ("s", b"x"), "Y": ("x", b"yz")}
     c.syms = {0: "A", 1: "B"}
     m.ctx[0] = c
     return m
